@@ -76,9 +76,9 @@ def to_term(case, ob):
 
 # ----------------------------------------------------------------------------- generators
 NAMES = ["a", "b", "c", "items", "item", "itemsx", "Items", "_", "_x1", "aé", "A_9", "name", "i", "x" * 12,
-         "éx"[::-1], "b2", "a١"]
-EXTRA = list("ab_19AZz+*.:,[] \t\n\r\f") + ["items", "\x0b", "-", "(", ")", "é", "€", "١", "ß",
-                                              " ", "́", "#", "'"]
+         "éx"[::-1], "b2", "a١", "a中", "n²", "items1", "itemsé", "_items", "Items_"]
+EXTRA = list("ab_19AZz+*.:,[] \t\n\r\f") + ["items", "\x0b", "-", "(", ")", "é", "€", "١", "ß", "\u00a0", "\u0301", "#",
+                                              "'", "中", "ñ", "²", "ª", "\u2028", "\x1c", "\x85", "\u200b", "‿", "\\", "\x00"]
 
 
 def npaths(t):
